@@ -392,7 +392,9 @@ fn case_strategy(_t: Tier) -> BoxedStrategy<Case> {
     prop_oneof![24 => any_matrix().boxed(), 1 => wide_matrix().boxed()]
         .prop_flat_map(|h| {
             let n = h.cols;
-            let llr = || prop_oneof![4 => proptest::collection::vec(any_llr(), n), 2 => super::decgen::llr_vector(&h)];
+            // one component in thirty is +-infinity (a bit known with certainty, as a shortened or pilot position is fed)
+            let comp = || prop_oneof![28 => any_llr(), 1 => Just(f64::INFINITY), 1 => Just(f64::NEG_INFINITY)];
+            let llr = || prop_oneof![4 => proptest::collection::vec(comp(), n), 2 => super::decgen::llr_vector(&h)];
             let limit = || prop_oneof![1 => Just(0usize), 2 => Just(1usize), 3 => Just(2usize), 3 => Just(3usize), 3 => Just(6usize), 2 => Just(20usize), 1 => Just(60usize)];
             let more = proptest::collection::vec((llr(), limit()), 0..=2);
             (llr(), limit(), more, Just(h), 0..4u8)
@@ -457,6 +459,7 @@ fn check_reference(case: &Case, p: &mut Probe) -> Check {
     one!(IntMinSum(case.emit), IntMinSum(0), "IntMinSum");
     one!(FreeAlgebra(case.emit), FreeAlgebra(0), "FreeAlgebra");
     p.class_if(case.emit % 4 != 0, "emission-order-permuted");
+    p.class_if(calls.iter().any(|(l, _)| l.iter().any(|x| x.is_infinite())), "infinite-llr");
     p.class_if(case.h.row_lists().iter().any(|r| r.len() >= 33), "check-degree>=33");
     let deg2 = case.h.col_lists().iter().any(|c| c.len() >= 2);
     p.class_if(max_it >= 3, "iterations>=3");
@@ -865,7 +868,7 @@ pub fn property() -> Property {
         subs: vec![
             Box::new(Sub {
                 name: "reference",
-                rule: "generated (H, LLR, limit): H 1..=8 x 1..=12 (one case in 25: 1..=5 x 33..=80 with a check of degree >= 33) with arbitrary rows (degree-0 and degree-1 checks and isolated variables allowed), LLRs from the C01 catalogue, limits {0,1,2,3,6,20,60} (a third of the converged calls repeated with limit usize::MAX, usize::MAX-1, isize::MAX or 2^32 and compared again), 1..=3 calls on the same decoder object (each compared with the stateless reference); flooding::Decoder<A> and horizontal_layered::Decoder<A> with the checker's exact integer min-sum (wrapping i64) and free hash-term algebra (order-independent, separates routing/initialisation/staleness) against an own edge-map interpreter of the two textbook schedules: identical (verdict, word, iterations), also for limit 0 on a non-codeword (word = the arithmetic's hard decisions of the quantised channel LLRs); non-trivial = >= 2 iterations executed and a variable of degree >= 2; inner = decoder runs compared",
+                rule: "generated (H, LLR, limit): H 1..=8 x 1..=12 (one case in 25: 1..=5 x 33..=80 with a check of degree >= 33) with arbitrary rows (degree-0 and degree-1 checks and isolated variables allowed), LLRs from the C01 catalogue plus +-infinity (one component in thirty), limits {0,1,2,3,6,20,60} (a third of the converged calls repeated with limit usize::MAX, usize::MAX-1, isize::MAX or 2^32 and compared again), 1..=3 calls on the same decoder object (each compared with the stateless reference); flooding::Decoder<A> and horizontal_layered::Decoder<A> with the checker's exact integer min-sum (wrapping i64) and free hash-term algebra (order-independent, separates routing/initialisation/staleness) against an own edge-map interpreter of the two textbook schedules: identical (verdict, word, iterations), also for limit 0 on a non-codeword (word = the arithmetic's hard decisions of the quantised channel LLRs); non-trivial = >= 2 iterations executed and a variable of degree >= 2; inner = decoder runs compared",
                 cases: |t| t.pick(300_000, 10_000_000),
                 strategy: case_strategy,
                 check: check_reference,
